@@ -229,6 +229,22 @@ def judge(L, seed):
             e = sht.evaluate_at_points(cr, th[i, j], ph[i, j])
             if abs(e - np.real(vr)[i, j]) > tol * 100:
                 return f"L={L}: evaluate_at_points (real) differs from synthesis at a grid point by {abs(e - np.real(vr)[i, j]):.3g}"
+    # point-wise evaluation against independent harmonics (scipy), away from the grid: random points, points close to the poles
+    # and the poles themselves
+    if 1 <= L <= 12:
+        from scipy.special import sph_harm_y
+        pts = [(float(nrng.uniform(0, np.pi)), float(nrng.uniform(0, 2 * np.pi))) for _ in range(4)]
+        pts += [(1e-3, 0.4), (3e-3, 2.0), (np.pi - 2e-3, 5.0), (0.0, 0.0), (0.0, 1.3), (np.pi, 0.7)]
+        for th, ph in pts:
+            want = sum(cc[l * (l + 1) + m] * sph_harm_y(l, m, th, ph) for l in range(L + 1) for m in range(-l, l + 1))
+            got = sht.evaluate_at_points(cc, th, ph)
+            if abs(got - want) > tol * 1000 * (1 + abs(want)):
+                return f"L={L}: evaluate_at_points (complex) at theta={th!r}, phi={ph!r} gives {got!r}, the expansion in orthonormal harmonics is {want!r}"
+            full = sht.complete_coefficients(cr)
+            wantr = sum(full[l * (l + 1) + m] * sph_harm_y(l, m, th, ph) for l in range(L + 1) for m in range(-l, l + 1))
+            gotr = sht.evaluate_at_points(cr, th, ph)
+            if abs(gotr - wantr) > tol * 1000 * (1 + abs(wantr)):
+                return f"L={L}: evaluate_at_points (real) at theta={th!r}, phi={ph!r} gives {gotr!r}, the expansion in orthonormal harmonics is {wantr!r}"
     # convention: samples of Y_lm analyse to the unit vector at l(l+1)+m
     if L >= 2:
         th, ph = sht.grid
